@@ -317,9 +317,54 @@ EMITTERS = {
     "legacy.create_request": "request", "legacy.create_notification": "notification", "legacy.create_response": "result", "legacy.create_error_response": "error",
     # messages written by the sending helpers (captured at the write stream) and built by the batch processor
     "send_message": "request", "send_tools_call": "request", "send_cancelled_notification": "notification", "send_progress_notification": "notification",
+    "send_initialized_notification": "notification", "send_roots_list_changed.notifications": "notification", "send_roots_list_changed.roots": "notification",
+    "handle_roots_list_request": "result", "handle_elicitation_request": "result", "handle_elicitation_request:fails": "error", "batch.rejection": "error",
     # a request as the transports' serialisers put it on the wire (stdin line / POST body)
     "stdio_writer": "request", "http_post": "request", "sse_post": "request",
     "batch.item_error:plain": "error", "batch.item_error:intcode": "error", "batch.item_error:strcode": "error", "batch.item_error:nullcode": "error", "batch.item_error:floatcode": "error",
+}
+OWN_PAYLOAD = {"send_cancelled_notification", "send_progress_notification", "send_initialized_notification", "send_roots_list_changed.notifications",
+               "send_roots_list_changed.roots", "handle_roots_list_request", "handle_elicitation_request:fails"}
+# where each function of the package that builds a JSON-RPC message is judged (emitter census; a
+# site that is not listed is reported in the evidence and as a note - it has no driver yet)
+EMITTER_SITES = {
+    "chuk_mcp.protocol.features.batching:BatchProcessor.create_batch_rejection_error": "C02 batch.rejection, C06 (rejection line), C13",
+    "chuk_mcp.protocol.features.batching:BatchProcessor.process_message_data": "C02 batch.item_error",
+    "chuk_mcp.protocol.features.batching:test_version_batching_scenarios": "self-test helper, builds inputs only",
+    "chuk_mcp.protocol.messages.initialize.send_messages:send_initialized_notification": "C02, C03",
+    "chuk_mcp.protocol.messages.json_rpc_message:JSONRPCMessage.create_error_response": "C02 legacy.create_error_response",
+    "chuk_mcp.protocol.messages.json_rpc_message:JSONRPCMessage.create_notification": "C02 legacy.create_notification",
+    "chuk_mcp.protocol.messages.json_rpc_message:JSONRPCMessage.create_request": "C02 legacy.create_request",
+    "chuk_mcp.protocol.messages.json_rpc_message:JSONRPCMessage.create_response": "C02 legacy.create_response",
+    "chuk_mcp.protocol.messages.json_rpc_message:JSONRPCMessage.to_specific_type": "C02 (parse path of every case)",
+    "chuk_mcp.protocol.messages.json_rpc_message:create_error_response": "C02",
+    "chuk_mcp.protocol.messages.json_rpc_message:create_notification": "C02",
+    "chuk_mcp.protocol.messages.json_rpc_message:create_request": "C02",
+    "chuk_mcp.protocol.messages.json_rpc_message:create_response": "C02",
+    "chuk_mcp.protocol.messages.json_rpc_message:parse_message": "C02 (every case), C09",
+    "chuk_mcp.protocol.messages.notifications:send_cancelled_notification": "C02, C14",
+    "chuk_mcp.protocol.messages.notifications:send_progress_notification": "C02",
+    "chuk_mcp.protocol.messages.notifications:send_roots_list_changed_notification": "C02",
+    "chuk_mcp.protocol.messages.roots.send_messages:handle_roots_list_request": "C02",
+    "chuk_mcp.protocol.messages.roots.send_messages:send_roots_list_changed_notification": "C02",
+    "chuk_mcp.protocol.messages.send_message:send_message": "C02, C01",
+    "chuk_mcp.protocol.types.elicitation:ElicitationClient.handle_elicitation_request": "C02, C10",
+    "chuk_mcp.protocol.types.elicitation:ElicitationHandler.request_user_input": "C10 (via)",
+    "chuk_mcp.server.protocol_handler:ProtocolHandler._handle_initialize": "C08, C04",
+    "chuk_mcp.server.protocol_handler:ProtocolHandler._handle_ping": "C08",
+    "chuk_mcp.server.protocol_handler:ProtocolHandler.create_error_response": "C08",
+    "chuk_mcp.server.protocol_handler:ProtocolHandler.create_response": "C08",
+    "chuk_mcp.server.protocol_handler:ProtocolHandler.handle_message": "C08",
+    "chuk_mcp.server.server:MCPServer._handle_resources_list": "C08",
+    "chuk_mcp.server.server:MCPServer._handle_resources_read": "C08",
+    "chuk_mcp.server.server:MCPServer._handle_tools_call": "C08",
+    "chuk_mcp.server.server:MCPServer._handle_tools_list": "C08",
+    "chuk_mcp.transports.http.http_client:detect_transport_type": "probe request of a convenience function; not driven",
+    "chuk_mcp.transports.http.transport:StreamableHTTPTransport._ensure_terminal": "C11 (synthesised terminals re-validated as messages)",
+    "chuk_mcp.transports.http.transport:StreamableHTTPTransport._process_sse_response": "C11",
+    "chuk_mcp.transports.http.transport:StreamableHTTPTransport._send_message_internal": "C02 http_post, C11",
+    "chuk_mcp.transports.sse.transport:SSETransport._process_sse_stream": "C12",
+    "chuk_mcp.transports.sse.transport:SSETransport._send_message_via_http": "C02 sse_post, C12",
 }
 HELPER_EMITTERS = {"send_message", "send_tools_call", "send_cancelled_notification", "send_progress_notification"}
 PAYLOADS = [None, {}, {"a": 1}, {"nil": None}, {"l": [None, 1, {"x": None}]}, {"deep": {"d": {"e": [None]}}, "big": 2**63 + 1, "f": 1.5, "neg0": -0.0},
@@ -346,7 +391,7 @@ def check_c02(ctx):
             for pl in PAYLOADS:
                 if EMITTERS[em] == "result" and pl is None and not em.startswith(("create", "legacy")):
                     continue
-                if (em.startswith("batch.") or em in ("send_cancelled_notification", "send_progress_notification")) and pl is not PAYLOADS[0]:
+                if (em.startswith("batch.") or em in OWN_PAYLOAD) and pl is not PAYLOADS[0]:
                     continue          # these build their own payload: one case per id
                 cases.append({"emitter": em, "id": tag(idv), "payload": tag(pl)})
     for _ in range(100 if quick else 3000):
@@ -354,10 +399,19 @@ def check_c02(ctx):
         cases.append({"emitter": rng.choice(list(EMITTERS)), "id": tag(rng.choice(IDVALS + [rng.randrange(-2**63, 2**64)])), "payload": tag(pl)})
     recs = []
     for fb in (False, True):
-        out = worker(fb, {"op": "emit", "cases": cases})["results"]
+        wout = worker(fb, {"op": "emit", "cases": cases})
+        out = wout["results"]
+        unknown = sorted(set(wout.get("emit_sites", [])) - set(EMITTER_SITES))
+        ctx.cov["emitter_sites"] = len(wout.get("emit_sites", []))
+        ctx.cov["emitter_sites_without_driver"] = unknown
+        if unknown and not fb:
+            ctx.note("functions that build JSON-RPC messages and are not in the emitter table of harness/props/models.py (no driver yet): %s" % ", ".join(unknown))
         for c, o in zip(cases, out):
             want = EMITTERS[c["emitter"]]
             if not o["built"]:
+                ctx.cov.setdefault("not_built_examples", [])
+                if len(ctx.cov["not_built_examples"]) < 6:
+                    ctx.cov["not_built_examples"].append([c["emitter"], "fallback" if fb else "pydantic", o.get("exc"), str(untag(c["id"]))[:30]])
                 recs.append({"emitter": c["emitter"], "want": want, "backend": "fallback" if fb else "pydantic", "form": "none", "env": {"obj": False}, "penv": {"obj": False}, "idEq": False, "sameTree": False, "built": False})
                 continue
             idv = untag(c["id"])
@@ -382,8 +436,14 @@ def check_c02(ctx):
                     pl = {"requestId": idv, "reason": "why"}
                 elif c["emitter"] == "send_progress_notification":
                     pl = {"progressToken": idv, "progress": 0.5, "total": 1.0, "message": "half"}
-                elif c["emitter"].startswith("batch.item_error"):
+                elif c["emitter"].startswith("batch.item_error") or c["emitter"] in ("handle_elicitation_request:fails", "batch.rejection"):
                     pl = None
+                elif c["emitter"] in ("send_initialized_notification", "send_roots_list_changed.notifications", "send_roots_list_changed.roots"):
+                    pl = {}
+                elif c["emitter"] == "handle_roots_list_request":
+                    pl = {"roots": [{"uri": "file:///tmp/verif", "name": "r\u2028"}]}
+                elif c["emitter"] == "handle_elicitation_request":
+                    pl = {"data": pl if pl is not None else {}, "cancelled": False}
                 if want == "result":
                     got_pl = d.get("result") if isinstance(d, dict) else None
                     if pl is None or (pl == {} and c["emitter"].startswith(("create", "legacy"))):
@@ -393,6 +453,9 @@ def check_c02(ctx):
                 else:
                     got_pl = d.get("params") if isinstance(d, dict) else None
                 payload_eq = tag(got_pl) == tag(pl) or (pl in (None, {}) and got_pl in (None, {}))
+                if c["emitter"] == "batch.rejection":
+                    # the rejection explains itself in error.data; its wording is free
+                    payload_eq = isinstance(got_pl, dict) and got_pl.get("batching_supported") is False
                 recs.append({"emitter": c["emitter"], "want": want, "backend": "fallback" if fb else "pydantic", "form": form, "env": f["env"], "penv": f["parsed"]["env"],
                              "idEq": bool(id_eq), "sameTree": f["parsed"]["tree"] == f["tree"], "payloadEq": bool(payload_eq), "built": True, "pcls": f["parsed"]["cls"]})
     slim = [{k: v for k, v in x.items() if k not in ("built", "pcls")} for x in recs if x["built"]]
